@@ -1019,6 +1019,21 @@ def g1_inline(fn, vocab_ok=True, keep=None):
                     continue      # a fresh mutable object has an identity
                 if not total_loads.get(nm):
                     continue
+                # a flag computed immediately before the `if` that alone tests it: nothing happens between the definition and the
+                # evaluation of the test, so the test may as well contain the expression (whatever it reads, mutated later or not)
+                if i < len(block) and isinstance(block[i], ast.If) and nm not in facts.nested_uses and nm not in facts.declared \
+                        and facts.nstores(nm) == 1 and nm not in facts.params:
+                    tst = block[i].test
+                    tu = [x for x in ast.walk(tst) if isinstance(x, ast.Name) and x.id == nm and isinstance(x.ctx, ast.Load)]
+                    if len(tu) == 1 == total_loads.get(nm) and not any(isinstance(x, (ast.Call, ast.Await, ast.NamedExpr, ast.Yield, ast.YieldFrom)) for x in ast.walk(tst)) \
+                            and not any(isinstance(x, (ast.Await, ast.NamedExpr, ast.Yield, ast.YieldFrom, ast.Lambda)) for x in ast.walk(e)) and nm not in _free_names(e):
+                        block[i].test = _Subst({nm: e}).visit(tst)
+                        i -= 1
+                        del block[i]
+                        facts.store_sites.pop(nm, None)
+                        total_loads[nm] = 0
+                        done = True
+                        continue
                 if not is_pure(e, value_ok=False):
                     continue
                 en = _free_names(e)
@@ -1050,6 +1065,9 @@ def g1_inline(fn, vocab_ok=True, keep=None):
                             bad = True
                         elif ku == first_store:
                             st = tail[ku]
+                            if isinstance(st, ast.If) and any(x is u for x in ast.walk(st.test)) \
+                                    and not any(x is sn for k2, sn in store_idx if k2 == ku for x in ast.walk(st.test)):
+                                continue          # the test of an `if` is evaluated (once) before the stores in its branches
                             # `v = f(temp)`: the right-hand side is evaluated before the store
                             if not (isinstance(st, (ast.Assign, ast.AugAssign)) and all(any(x is sn for x in ast.walk(t_)) for k2, sn in store_idx if k2 == ku
                                                                                        for t_ in (st.targets if isinstance(st, ast.Assign) else [st.target]))
